@@ -528,6 +528,13 @@ func (rm *relayManager) handleCreateRelayRequest(v cert.Version, h *HostInfo, f 
 		if !rm.GetAmRelay() {
 			return
 		}
+		// The relay is set up between the authenticated sender and the target. The address the sender
+		// claims to ask for is only a label: accepting another host's address here would let the
+		// sender attach itself to that host's (possibly half-open) relay entry on the target's tunnel.
+		if !slices.Contains(h.vpnAddrs, from) {
+			logMsg.Error("Discarding relay request for a source address the requesting host does not own")
+			return
+		}
 		peer := rm.hostmap.QueryVpnAddr(target)
 		if peer == nil {
 			// Try to establish a connection to this host. If we get a future relay request,
